@@ -19,7 +19,10 @@ TEMPLATES = {
     "uod_long": "Mark: M1\nCmdA\nWait: 5s\nMark: M2\n",
     "watch_never": "Mark: M1\nWatch: In1 > 0\n    Mark: W1\nMark: M2\nWait: 5s\n",
     "pause_untimed": "Mark: M1\nPause\nMark: M2\n",
+    # a Watch whose condition becomes true at tick 6: a cancel may arrive before, in the tick of, or after activation
+    "watch_later": "Mark: M1\nWatch: In1 > 0\n    Mark: W1\nMark: M2\nWait: 5s\n",
 }
+IN1 = {"watch_later": [6, 99]}
 N = 12
 
 
@@ -36,8 +39,7 @@ def harness(sym):
     kind = sym.shard["kind"]
     durations = {"CmdA": sym.int("dur_CmdA", 4, 8)} if "CmdA" in pc else {}
     ev_tick = sym.int("ev_tick", 1, N - 2)
-    in1 = (0, 0)
-    sym.shard["in1"] = list(in1)
+    sym.shard["in1"] = list(IN1.get(t, (0, 0)))
     sc = run_scenario(sym, t, N, pcode=pc, durations=dict(durations), event=(kind, ev_tick), collect_runlog=True)
     sym.check(not sc.tick_errors, f"tick-raised|after={kind}", f"Engine.tick raised {sc.tick_errors[:1]} after {sc.events}")
     if not sc.events:
@@ -54,6 +56,8 @@ def harness(sym):
                       f"{kind} on {tgt} at tick {te} (offered={ev['offered']}, raised={ev['raised']}) changed {key}: {a[key]} vs {b[key]}")
         return
     name = tgt["name"]
+    if ev["raised"] is not None:
+        return          # the engine refused the request (nothing was cancelled/forced): the statement demands nothing then
     if kind == "cancel":
         if name.startswith("Pause") or name.startswith("Hold"):
             bad = "Paused" if name.startswith("Pause") else "Holding"
@@ -68,7 +72,8 @@ def harness(sym):
             sym.check(not execs_after, "cancel-uod-executed-after-cancel", f"CmdA executed after its cancel at tick {te}: {execs_after}")
         elif name.startswith("Watch"):
             ran = [i for i, m in enumerate(sc.marks_by_tick) if "W1" in m]
-            sym.check(not ran, "cancel-watch-body-ran", f"Watch cancelled at tick {te} but its body ran at tick {ran[:1]}")
+            # the cancel was offered and accepted before tick te ran: the body must not start in tick te or later
+            sym.check(not ran or ran[0] < te, "cancel-watch-body-ran", f"Watch cancelled (offered, accepted) before tick {te} but its body ran at tick {ran[:1]}")
     else:  # force
         if name.startswith("Wait"):
             hit = [i for i, m in enumerate(sc.marks_by_tick) if "M2" in m]
@@ -77,7 +82,7 @@ def harness(sym):
                           f"Wait forced at tick {te}; successor M2 appeared at {hit[:1]} (run of {N} ticks)")
         elif name.startswith("Watch"):
             hit = [i for i, m in enumerate(sc.marks_by_tick) if "W1" in m]
-            if te <= N - 5:
+            if te <= N - 5 and t == "watch_never":
                 sym.check(bool(hit) and hit[0] <= te + 4, "force-watch-did-not-run",
                           f"Watch forced at tick {te}; body mark W1 appeared at {hit[:1]}")
 
@@ -101,7 +106,7 @@ OBLIGATIONS = [Obligation(
              "openpectus.lang.exec.tracking:Tracking.mark_cancelled", "openpectus.lang.exec.tracking:Tracking.mark_forced",
              "openpectus.engine.internal_commands_impl:PauseEngineCommand.cancel", "openpectus.engine.internal_commands_impl:HoldEngineCommand.cancel"],
     symbolic="request tick (1..10), index of the targeted run-log item among those reported at that tick or an unknown id, UOD command duration 4..8 iterations",
-    bounds={"quick": "6 templates (long Wait, timed Pause, timed Hold, long UOD command, Watch whose condition never holds, untimed Pause) x {cancel, force}, 12 ticks, one request",
+    bounds={"quick": "7 templates (long Wait, timed Pause, timed Hold, long UOD command, Watch whose condition never holds, Watch whose condition becomes true at tick 6, untimed Pause) x {cancel, force}, 12 ticks, one request",
             "thorough": "same (the space is exhausted in the quick tier)"},
     assumptions=["requests are issued between ticks; one request per run", "'offered' = the cancellable/forcible flag of the item in the run log produced immediately before the request",
                  "'changes nothing' is judged on marks, System State, block events, UOD callbacks, hardware writes",
